@@ -363,6 +363,12 @@ class StmtMixin:
                 self.delitem(base, idx)
             elif isinstance(tgt, ast.Name):
                 self.unbind(tgt.id)
+            elif isinstance(tgt, ast.Attribute):
+                base = self.force(self.ev(tgt.value), 'attribute base')
+                decl = self.world.classes.get(base.shape.cls) if isinstance(base, SRef) else None
+                if decl is None or '__delattr__' not in decl.methods:
+                    raise Unsupported('del of an attribute of %r' % (base,))
+                decl.methods['__delattr__'](self, [base, SStr(tgt.attr)], {})      # declared (assumed) attribute removal
             else:
                 raise Unsupported('del target')
 
